@@ -43,9 +43,15 @@ Wrap(kind, n, in) ==
          [stmts |-> <<Text("("), FilterS(FilterNames(n), in.stmts), Text(")")>>,
           defs |-> in.defs, out |-> [vv \in VV |-> S2B("(") \o ApplyF(FilterNames(n), in.out[vv]) \o S2B(")")], inh |-> in.inh]
     [] kind = "macro" ->
-         (* v is handed on as the macro's argument (a macro body does not read the caller's variables in Twig) *)
-         [stmts |-> <<Text("M"), PrintS(AttrCall(NameE("_self"), Nm("m", n), <<NameE("v")>>)), Text("W")>>,
-          defs |-> in.defs \o <<MacroS(Nm("m", n), <<"v">>, in.stmts)>>, out |-> [vv \in VV |-> S2B("M") \o in.out[vv] \o S2B("W")], inh |-> in.inh]
+         (* v is handed on as the macro's argument (a macro body does not read the caller's variables in Twig); every other
+            level keeps the returned value in a variable and prints it twice: the value is a value, not a stream *)
+         LET call == AttrCall(NameE("_self"), Nm("m", n), <<NameE("v")>>)
+             twice == n % 2 = 0 IN
+         [stmts |-> IF twice THEN <<Text("M"), SetS(Nm("r", n), call), PrintS(NameE(Nm("r", n))), Text("&"), PrintS(NameE(Nm("r", n))), Text("W")>>
+                    ELSE <<Text("M"), PrintS(call), Text("W")>>,
+          defs |-> in.defs \o <<MacroS(Nm("m", n), <<"v">>, in.stmts)>>,
+          out |-> [vv \in VV |-> IF twice THEN S2B("M") \o in.out[vv] \o S2B("&") \o in.out[vv] \o S2B("W") ELSE S2B("M") \o in.out[vv] \o S2B("W")],
+          inh |-> in.inh]
     [] kind = "blockfn" ->
          [stmts |-> <<IfS(BoolE(FALSE), <<BlockS(Nm("b", n), in.stmts)>>, <<>>, FALSE),
                       Text("<"), PrintS(CallE("block", <<StrE(Nm("b", n))>>)), Text(">")>>,
